@@ -48,6 +48,33 @@ def gen_race(r):
     return files
 
 
+def chunk_size():
+    """Symbol resolution is split into work items of MAX_SYMBOLS_PER_WORK_ITEM symbols (resolution.rs); boundary indices are worth a case each."""
+    import re
+    from .. import runner
+    try:
+        m = re.search(r"MAX_SYMBOLS_PER_WORK_ITEM\s*:\s*usize\s*=\s*([0-9_]+)", open(os.path.join(runner.REPO, "libwild/src/resolution.rs")).read())
+        return int(m.group(1).replace("_", ""))
+    except Exception:
+        return 5000
+
+
+def gen_boundary(d, target_index):
+    """main object whose only non-weak reference to an archive-defined symbol sits at symbol-table index `target_index`."""
+    from ..elfread import Elf
+    filler = max(target_index - 8, 0)
+    for _ in range(4):
+        files = [{"kind": "obj", "filler": filler, "entries": [("U", 0, False)]},
+                 {"kind": "ar", "whole": False, "group": 1, "thin": False, "entries": [("D", 0, "s", 0, False)]},
+                 {"kind": "ar", "whole": False, "group": 2, "thin": False, "entries": [("D", 1, "s", 0, False)]}]
+        line = lm.build_inputs(d, files)
+        idx = [y.index for y in Elf(os.path.join(d, "f0.o")).symtab() if y.name == "sym_0"][0]
+        if idx == target_index:
+            return files, line
+        filler += target_index - idx
+    return files, line
+
+
 def move_archives(r, files):
     """Move every archive group to a random position after file 0, keeping the relative order of the
     definers of each name (only names with a single definer are kept in moved archives)."""
@@ -85,15 +112,25 @@ def run(ctx):
     r = ctx.rng
     n = 50 if ctx.quick else 1200
     reqs, impl, inputs = [], [], []
-    for i in range(n):
-        kind = "race" if i % 5 == 0 else "mixed"
-        files = gen_race(r) if kind == "race" else c02.gen_input(r, ctx.quick)
+    ch = chunk_size()
+    boundary = [ch, ch + 1, 2 * ch] if ctx.quick else [ch - 1, ch, ch + 1, 2 * ch - 1, 2 * ch, 2 * ch + 1, 3 * ch]
+    for i in range(n + len(boundary)):
         d = os.path.join(ctx.scratch, f"c{i}")
-        try:
-            line = lm.build_inputs(d, files)
-        except RuntimeError:
-            ctx.count("gen", "build-failed")
-            continue
+        if i >= n:
+            kind = "boundary"
+            try:
+                files, line = gen_boundary(d, boundary[i - n])
+            except RuntimeError:
+                ctx.count("gen", "build-failed")
+                continue
+        else:
+            kind = "race" if i % 5 == 0 else "mixed"
+            files = gen_race(r) if kind == "race" else c02.gen_input(r, ctx.quick)
+            try:
+                line = lm.build_inputs(d, files)
+            except RuntimeError:
+                ctx.count("gen", "build-failed")
+                continue
         out = os.path.join(d, "out.wild")
         threads = 16 if kind == "race" else r.choice([1, 2, 8])
         rc, o, e = c02.run_linker("wild", d, line, False, out, threads=threads)
